@@ -185,7 +185,20 @@ func genIPP(t *rapid.T) [][]byte {
 	case "range":
 		extra = append([]byte{0x33}, append(append(be16(1), 'r'), 0, 8, 0, 0, 0, 1, 0, 0, 0, 2)...)
 	case "unknown-tag":
-		extra = append([]byte{0x30}, append(append(be16(1), 'o'), 0, 2, 'x', 'y')...)
+		// a value tag the service does not decode, with boundary name / value lengths (16 bit,
+		// incl. the values that are small negative numbers when read as signed)
+		lens := []int{0, 1, 2, 5, 0x7fff, 0x8000, 0xffff, 0xfffe, 0xfffd, 0xfffc, 0xfffb, 0xfffa, 0xfff9, 0xfff8}
+		nl := rapid.SampledFrom(lens).Draw(t, "namelen")
+		vl := rapid.SampledFrom(lens).Draw(t, "vallen")
+		tag := byte(rapid.SampledFrom([]int{0x30, 0x31, 0x32, 0x35, 0x36, 0x13, 0x10, 0x7f}).Draw(t, "utag"))
+		extra = append([]byte{tag}, be16(nl)...)
+		if nl < 16 {
+			extra = append(extra, bytes.Repeat([]byte("n"), nl)...)
+		}
+		extra = append(extra, be16(vl)...)
+		if vl < 16 {
+			extra = append(extra, bytes.Repeat([]byte("v"), vl)...)
+		}
 	}
 	body := ippBody(op, end, extra)
 	if end && rapid.Bool().Draw(t, "withdoc") {
